@@ -27,7 +27,13 @@ struct Sol : public squids::SQuIDS {
     for (int k = 0; k < d * d; k++) c[k] = hA[ir][k] + x * hB[ir][k];
     return c;
   }
-  SU_vector H0(double x, unsigned ir) const override { return make_vec(h0c(x, ir), d); }
+  // optional "background" solver consulted from inside H0 (a profile held in a second object, as propagation codes do): the value of H0
+  // does not depend on the answer, but the nested query runs while the outer one is in progress
+  const Sol* bg = nullptr; double bg_x = 0; mutable unsigned nested_calls = 0;
+  SU_vector H0(double x, unsigned ir) const override {
+    if (bg) { SU_vector o(bg->d); o[1] = 1; o[0] = 0.25; volatile double r = bg->GetExpectationValueD(o, 0, bg_x); (void)r; nested_calls++; }
+    return make_vec(h0c(x, ir), d);
+  }
   SU_vector HI(unsigned, unsigned, double) const override { return make_vec(hi, d); }
   SU_vector& rho(unsigned ix, unsigned ir) { return state[ix].rho[ir]; }
 };
@@ -98,6 +104,19 @@ void run_case(ByteSource& s, CaseInfo& ci) {
   Built B1 = build(s);
   Built B2; if (two) B2 = build(s, 2 + (B1.d - 2 + 1 + (int)s.choose(4)) % 5);
   ci.label(two ? "two-solvers" : "one-solver");
+  // (tail byte: added later) H0 of the first solver queries a small background solver of the same or another dimension
+  std::unique_ptr<Sol> BG;
+  unsigned nest = s.tail_choose(4);
+  if (nest == 1 || nest == 2) {
+    int bd = nest == 1 ? B1.d : 2 + (B1.d - 2 + 1 + (int)s.tail_choose(4)) % 5;
+    BG.reset(new Sol(2, bd, 1, 0.0));
+    BG->Set_xrange(0.0, 1.0, "linear");
+    BG->hA.assign(1, std::vector<double>(bd * bd, 0.0)); BG->hB.assign(1, std::vector<double>(bd * bd, 0.0)); BG->hi.assign(bd * bd, 0.0);
+    for (int k = 1; k < bd; k++) BG->hA[0][bd * k + k] = 0.3 * k;
+    for (unsigned ix = 0; ix < 2; ix++) for (int k = 0; k < bd * bd; k++) BG->rho(ix, 0)[k] = 0.5 + 0.1 * k + ix;
+    B1.s->bg = BG.get(); B1.s->bg_x = 0.25;
+    ci.label(nest == 1 ? "H0-queries-background-solver-same-dim" : "H0-queries-background-solver-other-dim");
+  }
   int nq = 1 + (int)s.choose(6);
   std::string samp = B1.desc;
   for (int q = 0; q < nq; q++) {
@@ -305,5 +324,18 @@ void regressions() {
     try { S.GetExpectationValueD(O, 0, x, 1e300, avr); } catch (const std::exception&) { raised++; }
     try { S.GetExpectationValueD(O, 0, x, ub, 1e300, avr); } catch (const std::exception&) { raised++; }
     CHECK(raised == 5, "C05|GetIntermediateState|outside-range-answered|below", "regression: x=%g answered by %d of 5 entry points", x, 5 - raised);
+  }
+  // 2164bb2: H0 that queries another solver object while GetExpectationValueD is in progress (shared per-thread buffer)
+  for (int bd : {2, 3}) {
+    Sol A(2, 2, 1, 0.0), BG(2, (unsigned)bd, 1, 0.0);
+    A.Set_xrange(0.0, 1.0, "linear"); BG.Set_xrange(0.0, 1.0, "linear");
+    for (Sol* p : {&A, &BG}) { p->hA.assign(1, std::vector<double>(p->d * p->d, 0.0)); p->hB.assign(1, std::vector<double>(p->d * p->d, 0.0)); p->hi.assign(p->d * p->d, 0.0); }
+    for (unsigned ix = 0; ix < 2; ix++) { for (int k = 0; k < 4; k++) A.rho(ix, 0)[k] = 0.1 * (k + 1) + ix; for (int k = 0; k < bd * bd; k++) BG.rho(ix, 0)[k] = 7.0 + k; }
+    SU_vector Oa(2); Oa[0] = 0.5; Oa[1] = 1;
+    double plain = A.GetExpectationValueD(Oa, 0, 0.25);
+    A.bg = &BG; A.bg_x = 0.5;
+    double nested = 0; bool threw = false;
+    try { nested = A.GetExpectationValueD(Oa, 0, 0.25); } catch (const std::exception&) { threw = true; }
+    CHECK(!threw && nested == plain, "C05|GetExpectationValueD|not-interpolated-trace", "regression: H0 consulting another solver (dim %d): %s, %.17g vs %.17g", bd, threw ? "threw" : "returned", nested, plain);
   }
 }
